@@ -1,2 +1,11 @@
 import P2P.Props.C15
-#print axioms P2P.Props.C15.placeholder
+#print axioms P2P.Props.C15.q2mat_isometry
+#print axioms P2P.Props.C15.q2mat_proper
+#print axioms P2P.Props.C15.chi_isometry
+#print axioms P2P.Props.C15.chi_fixes_axis
+#print axioms P2P.Props.C15.normalize_unit
+#print axioms P2P.Props.C15.qchichange_rigid
+#print axioms P2P.Props.C15.jacobi_unit_quaternion
+#print axioms P2P.Props.C15.findCoordinates_rigid
+#print axioms P2P.Props.C15.horn_identity
+#print axioms P2P.Props.C15.horn_exact
